@@ -122,7 +122,7 @@ class ManifestContext:
                 publish=int(timing.publishTime.timestamp()))
             ttl = max(
                 timing.timeShiftBufferDepth,
-                int(math.ceil(timing.minimumUpdatePeriod)))
+                int(math.ceil(timing.minimumUpdatePeriod or 0)))
             if self.cgi_params.patch:
                 patch_loc += objects.dict_to_cgi_params(self.cgi_params.patch)
             self.patch = PatchLocation(location=patch_loc, ttl=ttl)
@@ -450,6 +450,8 @@ class ManifestContext:
             # if stream is encrypted but there is no encrypted version of the
             # text track, fall back to a clear version
             for mf in media_files:
+                if mf.representation is None:
+                    continue
                 r = mf.representation
                 if opts.textCodec is None or r.codecs.startswith(
                         opts.textCodec):
